@@ -187,7 +187,30 @@ func init() {
 	also("C02", "(loop.every) as C01: epoch sweeps.", "loop.every")
 	also("C15", "(node.copy) a leaf handed out by a tree is not written through.", "node.copy")
 	also("C04", "(text.hex) the text form of a fixed-size byte type decodes exactly 2*N hex digits into the whole value and removes `0x` as a prefix.", "text.hex")
+	also("C17", "(lock.escape) a locking method does not hand out a pointer into guarded state that the package goes on writing.", "lock.escape")
+	also("C20", "(lock.escape) as C17.", "lock.escape")
 	also("C07", "(epc.shared) a shuffling owns its arrays: none is taken from a slice the caller hands in or from another structure.", "epc.shared")
 	also("C19", fdoc+" deneb's activation churn cap min(MAX_PER_EPOCH_ACTIVATION_CHURN_LIMIT, churn limit).", "formula.spec@deneb.ProcessEpochRegistryUpdates")
 	also("C02", "(committee.partition: sampling) the sync-committee sampler weighs the candidate's effective balance as read from the state's registry, under the spec's single acceptance test.", "committee.partition")
+	also("C01", "(cmp.spec@common.EpochsContext) the sync committee a block's sync aggregate is checked against is the one the context rotated in at the period boundary.", "cmp.spec@common.EpochsContext")
+	also("C02", "(loop.stale) a value computed from a running maximum inside a sweep is not read from before the loop that advances it.", "loop.stale")
+	also("C01", "(loop.stale) as C02.", "loop.stale")
+	also("C03", "(epc.source) attestations are checked against committees and sync committees hydrated from the state field of the same name.", "epc.source")
+	also("C08", "(committee.partition: sampling) the proposers kept in the context are sampled with effective balances read from the state's registry.", "committee.partition")
+	also("C09", "(prune.together) after a prune every index still names the node it named before (offset and slice move together), so the head walk starts from the right node.", "prune.together")
+	also("C10", "(lock.held@forkchoice)(err.flow@proto|forkchoice) the justified/finalized update holds the exclusive lock from the first write to the last, and an error of the prune sink is returned as it is.", "lock.held@forkchoice.", "err.flow@proto.|forkchoice.")
+	also("C15", "(tree.alias) a value handed to a setter is stored by value: no tree leaf points into the caller's struct.", "tree.alias")
+	also("C17", "(global.hasher) a hasher with scratch memory is not kept in a structure that several goroutines call into.", "global.hasher")
+	const gdoc = "(global.state) no function other than init writes a package-level variable: results depend on the arguments, not on earlier calls by any state or configuration of the process."
+	also("C02", gdoc, "global.state")
+	also("C05", gdoc+" (tree.fill) the backing tree of a vector is filled to its length, not to the full cover depth.", "global.state", "tree.fill")
+	also("C06", gdoc, "global.state")
+	also("C07", gdoc, "global.state")
+	also("C08", gdoc, "global.state")
+	also("C15", gdoc+" (decode.recv) loading encoded bytes decodes into the caller's value (pointer receivers).", "global.state", "decode.recv")
+	also("C13", "(tree.fill) the genesis randao mixes vector is filled to its length.", "tree.fill")
+	also("C04", "(decode.recv) every decoding method decodes into the caller's value; (ssz.writer) Serialize makes the structural codec calls Deserialize reads back.", "decode.recv", "ssz.writer")
+	also("C05", "(htr.computed) every HashTreeRoot return is computed with the hash function or is the receiver's own bytes, never a constant.", "htr.computed")
+	also("C19", "(numeric.signed) time and slot differences are taken unsigned behind an ordering test, never through a signed conversion that is wrong beyond half the range.", "numeric.signed")
+	also("C02", "(numeric.signed) as C19.", "numeric.signed")
 }
